@@ -91,7 +91,22 @@ class _Canon(ast.NodeTransformer):
     (`not not a` -> `a`, De Morgan, `not a == b` -> `a != b`, likewise in / is; order comparisons are left alone because
     `not a < b` and `a >= b` differ for unordered values).  Positions are preserved."""
 
+    def visit_Return(self, n: ast.Return):
+        # `return a if c else b`  ->  `if c: return a` / `else: return b`
+        if isinstance(n.value, ast.IfExp):
+            new = ast.If(test=n.value.test, body=[ast.copy_location(ast.Return(value=n.value.body), n)],
+                         orelse=[ast.copy_location(ast.Return(value=n.value.orelse), n)])
+            return self.visit(ast.copy_location(new, n))
+        self.generic_visit(n)
+        return n
+
     def visit_Assign(self, n: ast.Assign):
+        # `x = a if c else b`  ->  `if c: x = a` / `else: x = b`  (a conditional expression that is the whole right-hand side)
+        if isinstance(n.value, ast.IfExp) and len(n.targets) == 1 and isinstance(n.targets[0], ast.Name):
+            def asg(v):
+                return ast.copy_location(ast.Assign(targets=[ast.Name(id=n.targets[0].id, ctx=ast.Store())], value=v), n)
+            new = ast.If(test=n.value.test, body=[asg(n.value.body)], orelse=[asg(n.value.orelse)])
+            return self.visit(ast.copy_location(new, n))
         self.generic_visit(n)
         if len(n.targets) == 1 and isinstance(n.value, ast.BinOp) and isinstance(n.targets[0], (ast.Name, ast.Attribute, ast.Subscript)) \
                 and isinstance(n.value.op, (ast.Add, ast.Sub, ast.Mult)):
@@ -124,8 +139,15 @@ class _Canon(ast.NodeTransformer):
             return True
         return False
 
+    @staticmethod
+    def _enum_member(e: ast.AST) -> bool:
+        return isinstance(e, ast.Attribute) and isinstance(e.value, ast.Name) and e.value.id[:1].isupper() and e.attr.isupper()
+
     def visit_Compare(self, n: ast.Compare):
         self.generic_visit(n)
+        # identity with an enum member is equality with it (members are singletons): one spelling, `==` / `!=`
+        if len(n.ops) == 1 and isinstance(n.ops[0], (ast.Is, ast.IsNot)) and (self._enum_member(n.comparators[0]) or self._enum_member(n.left)):
+            n.ops = [ast.Eq() if isinstance(n.ops[0], ast.Is) else ast.NotEq()]
         # one spelling per comparison: a constant-like operand (literal, ALL_CAPS name, enum member) stands on the right;
         # otherwise order comparisons point "upwards" (`<`, `<=`) and (in)equalities put the textually smaller operand first
         if len(n.ops) == 1 and type(n.ops[0]) in self._MIRROR:
